@@ -267,6 +267,15 @@ def run(F, R):
             if t["k"] == "call" and (t.get("callee") or "").startswith("request_builder::RequestBuilder") and t.get("name") in transformers:
                 if req in reach(S, [nd.idx]):
                     pre.setdefault(t["name"], []).append(nd.idx)
+    # transformers applied inside closures evaluated before the loop (e.g. `apps.iter().fold(RequestBuilder::new(..), |b, a| b.add_update_check(a))`):
+    # read them off the value that reaches the loop's send
+    rq_call = [n for n in S.nodes if n.idx in L and n.ctx is hdr_ctx and n.term["k"] == "call" and n.term.get("name") == "do_omaha_request_and_update_context"]
+    if rq_call and len(rq_call[0].term["args"]) > 1:
+        from .. import terms as _terms
+        bterm = _terms.render(hdr_ctx.bv, hdr_ctx.bv.trace_op(rq_call[0].term["args"][1]), sm.w, {})
+        for nm in transformers:
+            if nm + "(" in bterm and nm != "request_id":
+                pre.setdefault(nm, [])
     R.check("C06-R4", "session-before-loop", "session_id" in pre and "add_update_check" in pre, "session_id/add_update_check/add_ping applied before the loop: %s" % sorted(pre),
             "session id or update-check payload is not set before the attempt loop: %s" % sorted(pre))
     # ---------------------------------------------------------------- R6 one send per built request outside the loop
